@@ -31,6 +31,6 @@ for mp in sorted(glob.glob(os.path.join(V, "seeded", "*", "meta.json"))):
         txt = "″"
 p = os.path.join(V, "DESIGN.md")
 s = open(p).read()
-s = re.sub(r"<!-- SEEDED:BEGIN -->.*?<!-- SEEDED:END -->", "<!-- SEEDED:BEGIN -->\n" + "\n".join(rows) + "\n<!-- SEEDED:END -->", s, flags=re.S)
+s = re.sub(r"<!-- SEEDED:BEGIN -->.*?<!-- SEEDED:END -->", lambda _m: "<!-- SEEDED:BEGIN -->\n" + "\n".join(rows) + "\n<!-- SEEDED:END -->", s, flags=re.S)
 open(p, "w").write(s)
 print(len(rows) - 2, "rows")
